@@ -223,7 +223,7 @@ def build(tier, repo):
         sim = cm.Simulator(c, fn)
         for sw in [n for n in cf.walk(node) if n.get("k") == "SwitchStmt"]:
             ce = sim.cond_of(sw)
-            if ce is None or ce[0] != "call" or ce[1] not in ("MAT_ID", "X_ID"):
+            if ce is None or not cm.is_type_id_expr(c, node, ce):
                 continue
             for labels, stmts in sim._switch_arms(sw["c"][-1]):
                 lab = labels[0]
@@ -332,13 +332,56 @@ def build(tier, repo):
 
     r7 = chk.rule("C18-R7", "32-bit pivot scratch arrays are copied from / back into the caller's integer matrix in the direction the routine uses them",
                   "pivots returned by a factorisation are the ones a later solve reads")
+    # file-local helpers that do the element-wise transfer (classified by interpreting them: which of their
+    # pointer parameters they write and which they read, sa/ckernel.py)
+    from .. import ckernel as ck
+    helpers_back, helpers_in = {}, {}
+    for hf in c.order:
+        if hf in wrappers:
+            continue
+        hn = c.funcs[hf]
+        ptrs = [(i_, x_.get("n"), x_.get("t") or "") for i_, x_ in enumerate([y for y in hn.get("c", []) if y.get("k") == "ParmVarDecl"])]
+        if not (2 <= len(ptrs) <= 4) or not any("matrix" in t_ for _, _, t_ in ptrs) or not any(re.search(r"\bint\s*\*", t_) for _, _, t_ in ptrs):
+            continue
+        try:
+            ke = ck.KernelEval(c, hf)
+            env = {nm: 2 for _, nm, t_ in ptrs if "*" not in t_}
+            env.update({("loop", 1): 1, "seed": 0})
+            acc = ke.run(env)
+        except Exception:
+            continue
+        mat = next(nm for _, nm, t_ in ptrs if "matrix" in t_)
+        iarr = next((i_, nm) for i_, nm, t_ in ptrs if re.search(r"\bint\s*\*", t_))
+        wrote = {a_[0] for a_ in acc if a_[2] == "w"}
+        read = {a_[0] for a_ in acc if a_[2] == "r"}
+        mre = re.compile(r"MAT_BUF\w?\(%s\)$" % re.escape(mat))
+        if any(mre.match(x_) for x_ in wrote) and iarr[1] in read:
+            helpers_back[hf] = iarr[0]
+        if iarr[1] in wrote and any(mre.match(x_) for x_ in read):
+            helpers_in[hf] = iarr[0]
+
+    def _helper_calls(txt_, table, P_):
+        n_ = 0
+        for hname, pos in table.items():
+            for m2 in re.finditer(r"\b%s\s*\(" % re.escape(hname), txt_):
+                i2, d2 = m2.end(), 1
+                while i2 < len(txt_) and d2:
+                    if txt_[i2] == "(":
+                        d2 += 1
+                    elif txt_[i2] == ")":
+                        d2 -= 1
+                    i2 += 1
+                args2 = [a2.strip() for a2 in cf.split_top(txt_[m2.end():i2 - 1])]
+                if pos < len(args2) and args2[pos] == P_:
+                    n_ += 1
+        return n_
     for fn in wrappers:
         node = c.funcs[fn]
         txt = cx.strip_pp(c.text(node["b"], node["e"]))
         allocs = re.findall(r"\b(\w+)\s*=\s*(?:\(\s*int\s*\*\s*\)\s*)?(?:malloc|calloc)\s*\([^;]*sizeof\s*\(\s*int\s*\)", txt)
         for P in sorted(set(allocs)):
-            back = len(re.findall(r"MAT_BUFI\s*\(\s*\w+\s*\)\s*\[[^\]]*\]\s*=\s*%s\s*\[" % re.escape(P), txt))
-            into = len(re.findall(r"\b%s\s*\[[^\]]*\]\s*=\s*(?:\(int\)\s*)?MAT_BUFI\s*\(" % re.escape(P), txt))
+            back = len(re.findall(r"MAT_BUFI\s*\(\s*\w+\s*\)\s*\[[^\]]*\]\s*=\s*%s\s*\[" % re.escape(P), txt)) + _helper_calls(txt, helpers_back, P)
+            into = len(re.findall(r"\b%s\s*\[[^\]]*\]\s*=\s*(?:\(int\)\s*)?MAT_BUFI\s*\(" % re.escape(P), txt)) + _helper_calls(txt, helpers_in, P)
             routines = sorted({m_.group(1) for m_ in re.finditer(r"\b([dz]\w+)_\s*\([^;]*\b%s\b" % re.escape(P), txt)})
             if not routines:
                 continue
